@@ -14,7 +14,7 @@ import (
 func init() {
 	register(&Prop{
 		ID:          "C11",
-		Decided:     "(1) termination: every loop of the lexer and of the token-level parser reachable from rsql.Parse is a range loop, or is bounded by a counter compared on an exit edge, or consumes input on every cycle (reaches Lexer.readChar) and is left once every token is EOF / the current byte is 0; every recursive cycle among the parser functions carries a depth counter compared with a constant - the calls a depth test dominates are cut, and the component without them must be acyclic, so a bound on one branch does not cover the recursion of another - (or is the one reviewed helper whose depth is bounded by what it recurses on); (2) no panic(...) call and no single-value type assertion is reachable from rsql.Parse inside the module; (3) clause completeness: every field of SelectStatement and WindowDefinition that a parser function stores to is read by ToStreamConfig or a function it calls; (4) every token type a clause parser tests for can be produced by the lexer; (5) keywords are matched case-insensitively: lookupIdent switches on a case-folded copy of the identifier, and every lookup in a table of upper-case keywords anywhere in package rsql is done on a case-folded word (folded in the function or by every caller) and the whitespace skipper covers space, tab, newline and carriage return. Also: no field of an element appended by a list-parsing loop carries a value over from the previous list item (per-item state is initialised per iteration). Also: iteration caps of clause loops grow with the length of the statement (a constant cap silently drops long clauses because the error is recoverable); clause-text loops compare with every later clause keyword. Also: the default 'no alias -> table name' of a JOIN is applied before the ON clause uses the alias (flow/alias-default-before-use, shared with C16). Also: in the clause parsers every non-error way out of a function after a token was written into the item's strings.Builder passes a read of the accumulated text (flow/accumulated-text-consumed): the last item of a clause cannot be dropped by an early return. Also: the depth bound of a recursive cycle must cut every cycle of the component (removing the guarded functions leaves an acyclic rest), not merely exist somewhere in it. Also: the only state package rsql keeps between calls is a memo keyed by the statement text itself: every run-time write to a package-level variable of rsql is an insertion under a key that is a string parameter of the writing function, unmodified, or the reset of such a container (ownmap/parser-keeps-no-state).",
+		Decided:     "(1) termination: every loop of the lexer and of the token-level parser reachable from rsql.Parse is a range loop, or is bounded by a counter compared on an exit edge, or consumes input on every cycle (reaches Lexer.readChar) and is left once every token is EOF / the current byte is 0; every recursive cycle among the parser functions carries a depth counter compared with a constant - the calls a depth test dominates are cut, and the component without them must be acyclic, so a bound on one branch does not cover the recursion of another - (or is the one reviewed helper whose depth is bounded by what it recurses on); (2) no panic(...) call and no single-value type assertion is reachable from rsql.Parse inside the module; (3) clause completeness: every field of SelectStatement and WindowDefinition that a parser function stores to is read by ToStreamConfig or a function it calls; (4) every token type a clause parser tests for can be produced by the lexer; (5) keywords are matched case-insensitively: lookupIdent switches on a case-folded copy of the identifier, and every lookup in a table of upper-case keywords anywhere in package rsql is done on a case-folded word (folded in the function or by every caller) and the whitespace skipper covers space, tab, newline and carriage return. Also: no field of an element appended by a list-parsing loop carries a value over from the previous list item (per-item state is initialised per iteration). Also: iteration caps of clause loops grow with the length of the statement (a constant cap silently drops long clauses because the error is recoverable); clause-text loops compare with every later clause keyword. Also: the default 'no alias -> table name' of a JOIN is applied before the ON clause uses the alias (flow/alias-default-before-use, shared with C16). Also: in the clause parsers every non-error way out of a function after a token was written into the item's strings.Builder passes a read of the accumulated text (flow/accumulated-text-consumed): the last item of a clause cannot be dropped by an early return. Also: the depth bound of a recursive cycle must cut every cycle of the component (removing the guarded functions leaves an acyclic rest), not merely exist somewhere in it. Also: the only state package rsql keeps between calls is a memo keyed by the statement text itself: every run-time write to a package-level variable of rsql is an insertion under a key that is a string parameter of the writing function, unmodified, or the reset of such a container (ownmap/parser-keeps-no-state). Also: every slice of the statement text taken in the parser, and every text a lexer is started over, begins at offset 0 or at an offset built from token positions a lexer reported (Token.Pos), constants and lengths - never at an offset found by searching the raw text, which can lie inside a literal (flow/lexer-starts-at-token).",
 		NotDecided:  "that the configuration faithfully reflects clause text (token re-joining with heuristic spacing), keyword-like text inside literals, equality of results across layouts, termination of index-scanning string helpers outside Lexer/Parser (listed in the evidence under parser_loops_not_decided), index safety of slicing in general (the compiler's unproven bounds checks are not enumerated in the quick tier).",
 		Assumptions: []string{"at end of input Lexer.NextToken returns TokenEOF with an empty Value forever and Lexer.ch is 0 (read in NextToken/readChar)", "tokens obtained before a loop and compared inside it are also taken as EOF in the steady state"},
 		Run:         runC11,
@@ -198,6 +198,7 @@ func runC11(a *A) {
 	a.Rule("flow/no-state-between-list-items", 12, func() { a.ruleNoStateBetweenListItems("rsql") })
 	a.Rule("tables/clause-terminators", 12, func() { a.ruleClauseTerminators() })
 	a.Rule("term/caps-scale-with-input", 5, func() { a.ruleCapsScaleWithInput() })
+	a.Rule("flow/lexer-starts-at-token", 3, func() { a.ruleLexerStartsAtToken() })
 	a.Rule("flow/accumulated-text-consumed", 6, func() { a.ruleAccumulatedTextConsumed() })
 	a.Rule("flow/alias-default-before-use", 1, func() { a.ruleAliasDefaultBeforeUse() })
 	a.Rule("shape/layout-and-case", 2, func() {
@@ -956,4 +957,126 @@ func rootGlobal(v ssa.Value) *ssa.Global {
 		}
 	}
 	return nil
+}
+
+
+// ruleLexerStartsAtToken: a lexer reads the statement from its first byte, or from an offset that a lexer reported
+// as the position of a token (Token.Pos plus a constant or a length). An offset found by searching the raw text
+// (`strings.Index`, a hand-written word search) can lie inside a string literal or a quoted identifier: the lexer
+// then starts in the middle of a token and reads the rest of the statement wrongly - the layout / literal content
+// of a statement changes its parse. The same holds for every slice of Parser.input taken in the parser.
+func (a *A) ruleLexerStartsAtToken() int {
+	P := a.Named("rsql", "Parser")
+	inputF := a.FieldOf(P, "input")
+	tokT := a.Named("rsql", "Token")
+	posF := a.FieldOf(tokT, "Pos")
+	newLexer := a.Func("rsql", "NewLexer")
+	isInput := func(v ssa.Value) bool {
+		t := TermOf(v, nil)
+		return t.Kind == "field" && t.Field == inputF
+	}
+	// fromTokenPos: v is built from token positions, constants and lengths only (and at least one token position)
+	var fromTokenPos func(v ssa.Value, seen map[ssa.Value]bool) (ok bool, hasPos bool)
+	fromTokenPos = func(v ssa.Value, seen map[ssa.Value]bool) (bool, bool) {
+		if seen[v] {
+			return true, false
+		}
+		seen[v] = true
+		switch x := v.(type) {
+		case *ssa.Const:
+			return true, false
+		case *ssa.Field:
+			if fieldVarOf(x) == posF {
+				return true, true
+			}
+		case *ssa.UnOp:
+			if x.Op == token.MUL {
+				if fa, ok := x.X.(*ssa.FieldAddr); ok && fieldVarOf(fa) == posF {
+					return true, true
+				}
+				// a position remembered in a field of the parser (one scan serving two clauses): whatever is stored there
+				if fa, ok := x.X.(*ssa.FieldAddr); ok && fieldVarOf(fa) != nil && isIntType(fieldVarOf(fa).Type()) {
+					all, any, n := true, false, 0
+					for _, g := range a.ModFuncs {
+						if g.Pkg != a.Pkg("rsql") {
+							continue
+						}
+						for _, st := range storesToField(g, fieldVarOf(fa)) {
+							n++
+							o, h := fromTokenPos(st.Val, seen)
+							all, any = all && o, any || h
+						}
+					}
+					return all && n > 0, any
+				}
+				if ld, ok := x.X.(*ssa.Alloc); ok {
+					_ = ld
+					all, any := true, false
+					for _, st := range phiLeaves(x) {
+						if st == ssa.Value(x) {
+							return false, false
+						}
+						o, h := fromTokenPos(st, seen)
+						all, any = all && o, any || h
+					}
+					return all, any
+				}
+			}
+		case *ssa.BinOp:
+			if x.Op == token.ADD || x.Op == token.SUB {
+				o1, h1 := fromTokenPos(x.X, seen)
+				o2, h2 := fromTokenPos(x.Y, seen)
+				return o1 && o2, h1 || h2
+			}
+		case *ssa.Phi:
+			all, any := true, false
+			for _, e := range x.Edges {
+				o, h := fromTokenPos(e, seen)
+				all, any = all && o, any || h
+			}
+			return all, any
+		case *ssa.Convert:
+			return fromTokenPos(x.X, seen)
+		case *ssa.Call:
+			if _, ok := isBuiltinCall(x, "len"); ok {
+				return true, false
+			}
+		}
+		return false, false
+	}
+	n := 0
+	for _, fn := range a.ModFuncs {
+		if fn.Pkg != a.Pkg("rsql") {
+			continue
+		}
+		allInstrs(fn, func(in ssa.Instruction) {
+			sl, ok := in.(*ssa.Slice)
+			if !ok || !isStringType(sl.X.Type()) || !isInput(sl.X) {
+				return
+			}
+			n++
+			construct := fmt.Sprintf("%s#input-cut", fname(fn))
+			okLow := true
+			if sl.Low != nil {
+				o, h := fromTokenPos(sl.Low, map[ssa.Value]bool{})
+				okLow = o && (h || isZeroConst(sl.Low))
+			}
+			a.Check(okLow, construct, sl.Pos(), "the statement text is cut at a position a lexer reported for a token",
+				"the statement text is cut at "+TermOf(sl.Low, nil).String()+", which is not derived from a token position: an offset found by searching the raw text can lie inside a string literal or a quoted name, and what is read from there is not the statement's token stream")
+		})
+		for _, c := range callsTo(fn, newLexer) {
+			call, ok := c.(*ssa.Call)
+			if !ok || c.Parent() != fn {
+				continue
+			}
+			arg := call.Call.Args[0]
+			if _, isSl := arg.(*ssa.Slice); isSl {
+				continue // judged above
+			}
+			n++
+			_, isParam := arg.(*ssa.Parameter)
+			a.Check(isInput(arg) || isParam, fname(fn)+"#lexer-over-whole-text", c.Pos(), "the lexer is given the whole text", "a lexer is started over "+TermOf(arg, nil).String()+", which is neither the whole statement nor a suffix cut at a token position")
+		}
+	}
+	return n
 }
